@@ -1,8 +1,10 @@
 import Xo.Drv.Alloc
+import Xo.Drv.Topo
 /-! `lake env lean --run Driver.lean <component>` : stdin ops → stdout results -/
 def main (args : List String) : IO UInt32 := do
   let i ← IO.getStdin
   let o ← IO.getStdout
   match args with
   | ["alloc"] => Drv.loop i o Drv.AllocD.step Drv.AllocD.init; return 0
+  | ["topo"] => Drv.loop i o Drv.TopoD.step (); return 0
   | _ => IO.eprintln "usage: Driver.lean <component>"; return 2
